@@ -231,6 +231,28 @@ func runC19(r *Report, rng *rand.Rand, n int) {
 		one(i, d, cfg, false)
 	}
 	exclude = nil
+	// fixed documents, whatever the seed: operations with no, one and several tags (of which a filter lists some), and
+	// every single-list filter over them
+	{
+		mkOp := func(id string, tags []string, schema string) *gendoc.Operation {
+			resp := &gendoc.Node{Kind: "responses", Val: &gendoc.Val{Fields: map[string]any{"description": "d"},
+				Kids: []gendoc.Kid{{Path: []string{"content", "application/json", "schema"}, Node: &gendoc.Node{Kind: "schemas", Ref: "#/components/schemas/" + schema}, Pos: "response.content.schema"}}}}
+			return &gendoc.Operation{Method: "get", ID: id, Tags: tags, Fields: map[string]any{}, Kids: []gendoc.Kid{{Path: []string{"responses", "200"}, Node: resp, Pos: "operation.responses"}}}
+		}
+		comp := func(n string) *gendoc.Component {
+			return &gendoc.Component{Kind: "schemas", Name: n, Body: &gendoc.Node{Kind: "schemas", Val: &gendoc.Val{Fields: map[string]any{"type": "object", "properties": map[string]any{"x": map[string]any{"type": "string"}}}}}}
+		}
+		fd := &gendoc.Doc{
+			Paths: []*gendoc.PathItem{{Path: "/one", Ops: []*gendoc.Operation{mkOp("opOne", []string{"a"}, "SA")}}, {Path: "/two", Ops: []*gendoc.Operation{mkOp("opTwo", []string{"a", "b"}, "SB")}},
+				{Path: "/three", Ops: []*gendoc.Operation{mkOp("opThree", []string{"b", "c"}, "SC")}}, {Path: "/none", Ops: []*gendoc.Operation{mkOp("opNone", nil, "SD")}}},
+			Comps: []*gendoc.Component{comp("SA"), comp("SB"), comp("SC"), comp("SD")},
+		}
+		for _, fc := range []gendoc.FilterCfg{{IncludeTags: []string{"a"}}, {ExcludeTags: []string{"b"}}, {IncludeTags: []string{"b"}, ExcludeTags: []string{"c"}},
+			{IncludeIDs: []string{"opTwo", "opNone"}}, {ExcludeIDs: []string{"opThree"}}, {IncludeTags: []string{"a", "c"}, SkipPrune: true}} {
+			one(-1, fd, fc, false)
+			r.Dist["fixed_document_with_several_tags_per_operation"]++
+		}
+	}
 	// boundary lengths: pad a description until the embedded text is an exact multiple of 80
 	// characters (no short last line) and until the last line is as short as base64 allows (4).
 	for _, target := range []int{0, 4, 76} {
